@@ -105,6 +105,7 @@ func c20r5(c *Ctx) {
 		ranges  map[string]bool
 		through map[*ssa.Function]bool
 		doc     string
+		needVia bool // the delegated test is part of the definition (not merely subsumed by the own range)
 	}
 	render := func(lo, hi int64) []string {
 		var out []string
@@ -123,8 +124,8 @@ func c20r5(c *Ctx) {
 		return m
 	}
 	for _, w := range []want{
-		{isSC, 0, mk(render(0, numInit-vmLen)), map[*ssa.Function]bool{isEmpty: true}, fmt.Sprintf("bytes [0,%d) zero, or the whole address zero", numInit-vmLen)},
-		{isMeta, 1, mk(render(numInit, numInit+meta)), map[*ssa.Function]bool{isSC: true}, fmt.Sprintf("a contract address with bytes [%d,%d) zero", numInit, numInit+meta)},
+		{isSC, 0, mk(render(0, numInit-vmLen)), map[*ssa.Function]bool{isEmpty: true}, fmt.Sprintf("bytes [0,%d) zero, or the whole address zero", numInit-vmLen), false},
+		{isMeta, 1, mk(render(numInit, numInit+meta)), map[*ssa.Function]bool{isSC: true}, fmt.Sprintf("a contract address with bytes [%d,%d) zero", numInit, numInit+meta), true},
 	} {
 		if w.par >= len(w.fn.Params) {
 			c.Anchor(rule, "parameters of "+FuncName(w.fn))
@@ -158,7 +159,7 @@ func c20r5(c *Ctx) {
 		case bad != "":
 			c.FailX(Oblig{Rule: rule, Func: FuncName(w.fn), Construct: construct, Pos: c.P.Pos(w.fn.Pos()), Kind: "violation",
 				Detail: bad + ": the classification depends on bytes it must ignore (e.g. the VM-type bytes) or ignores bytes it must test", Expected: w.doc})
-		case !seenWant || !seenVia:
+		case !seenWant || (w.needVia && !seenVia):
 			c.FailX(Oblig{Rule: rule, Func: FuncName(w.fn), Construct: construct, Pos: c.P.Pos(w.fn.Pos()), Kind: "violation",
 				Detail: "the documented test is missing: read {" + strings.Join(gs, ", ") + "}", Expected: w.doc})
 		default:
